@@ -38,36 +38,52 @@ class Script:
     def __init__(self, zs=(), us=()):
         self.zs = list(zs)
         self.us = list(us)
+        self.zi = 0
+        self.ui = 0
         self.normals = []        # values handed out by normal()
         self.nnormal = 0
+
+    def _z(self):
+        z = self.zs[self.zi]     # IndexError when the script is exhausted
+        self.zi += 1
+        return z
+
+    def _u(self):
+        u = self.us[self.ui]
+        self.ui += 1
+        return u
 
     def __call__(self, owner, method, a, k, real):
         if method == 'normal':
             loc = k.get('loc', a[0] if len(a) > 0 else 0.0)
             scale = k.get('scale', a[1] if len(a) > 1 else 1.0)
+            if isinstance(loc, (int, float)) and isinstance(scale, (int, float)):
+                v = float(loc + scale * self._z())
+                self.normals.append(v)
+                self.nnormal += 1
+                return v
             loc_a, scale_a = numpy.asarray(loc, dtype=float), numpy.asarray(scale, dtype=float)
             shape = numpy.broadcast(loc_a, scale_a).shape
             if shape == ():
-                z = self.zs.pop(0)
-                v = float(loc_a + scale_a * z)
+                v = float(loc_a + scale_a * self._z())
                 self.normals.append(v)
                 self.nnormal += 1
                 return v
             out = numpy.empty(shape)
             lb, sb = numpy.broadcast_to(loc_a, shape), numpy.broadcast_to(scale_a, shape)
             for i in range(shape[0]):
-                out[i] = lb[i] + sb[i] * self.zs.pop(0)
+                out[i] = lb[i] + sb[i] * self._z()
                 self.normals.append(float(out[i]))
             return out
         if method in ('random', 'random_sample'):
             size = k.get('size', a[0] if a else None)
             if size is None:
-                return self.us.pop(0)
-            return numpy.array([self.us.pop(0) for _ in range(int(size))])
+                return self._u()
+            return numpy.array([self._u() for _ in range(int(size))])
         if method == 'uniform':
             lo = k.get('low', a[0] if len(a) > 0 else 0.0)
             hi = k.get('high', a[1] if len(a) > 1 else 1.0)
-            return lo + (hi - lo) * self.us.pop(0)
+            return lo + (hi - lo) * self._u()
         return real(*a, **k)
 
 
